@@ -213,8 +213,16 @@ def Affine.mul_Ellipse (a : Affine K) (e : Ellipse K) : Ellipse K := ⟨a * e.in
 /-- `impl Mul<Arc> for Affine` -/
 def Affine.mul_Arc (a : Affine K) (arc : Arc K) : Arc K :=
   let ellipse := a.mul_Ellipse (Ellipse.new arc.center arc.radii arc.x_rotation)
+  let center := ellipse.center
   let (radii, rotation) := ellipse.inner.svd
-  { center := ellipse.center, radii := radii, x_rotation := rotation, start_angle := arc.start_angle, sweep_angle := arc.sweep_angle }
+  -- the start angle is measured anew in the frame of the image; an orientation-reversing map reverses the sweep
+  let start : Vec2 K := a * (arc.center + sampleEllipse arc.radii arc.x_rotation arc.start_angle) - center
+  let rot_sin := Scalar.sin rotation
+  let rot_cos := Scalar.cos rotation
+  let loc : Vec2 K := Vec2.new (rot_cos * start.x + rot_sin * start.y) (rot_cos * start.y - rot_sin * start.x)
+  let start_angle := Scalar.atan2 (loc.y * radii.x) (loc.x * radii.y)
+  let sweep_angle := if a.determinant <. (0 : K) then -arc.sweep_angle else arc.sweep_angle
+  { center := center, radii := radii, x_rotation := rotation, start_angle := start_angle, sweep_angle := sweep_angle }
 
 /-! ### rounded rectangle -/
 
